@@ -3,5 +3,5 @@ From Coq Require Import ZArith.
 From MV Require Import Auth.AuthModel.
 Extraction Language OCaml.
 Cd "../ocaml/gen".
-Extraction "m_c04.ml" cert_run12 cert_run13 fixed pinned run init step Nat.add Z.of_nat.
+Extraction "m_c04.ml" cert_run12 cert_run13 fixed pinned run run_hello init step Nat.add Z.of_nat.
 Cd "../../coq".
